@@ -168,7 +168,10 @@ func (g *Gen) expr0(d int, lambdaOK bool) ast.Expr {
 	case n < 72:
 		c := &ast.CallExpr{Fun: g.callee(d - 1), Args: g.list(d-1, 0, 3, true)}
 		if len(c.Args) > 0 && g.R.Chance(10) {
-			c.Ellipsis = 1
+			// (an INT literal before `...` only when Hazards allow: `f(\n1...)` loses its blank, see C19)
+			if l, ok := c.Args[len(c.Args)-1].(*ast.BasicLit); !ok || l.Kind != token.INT || g.Hazards > 0 {
+				c.Ellipsis = 1
+			}
 		}
 		return c
 	case n < 78:
